@@ -180,6 +180,11 @@ def search(item, seed):
             why = f"evaluation raised {type(ex).__name__}: {ex}"
         if why:
             return dict(function="scene", input=case, observed=why)
+    # the heading weight of a TP (APH): the C09 harness' cases, tilted objects included
+    import C09 as heading
+    w = heading.search(item, seed)
+    if w:
+        return dict(function="heading", input=w["input"], observed=w["observed"])
     for _ in range(budget(30)):
         base = gen_scene(rnd)
         case = dict(base, frames=[dict(est=base["est"], gt=base["gt"])] + [(lambda b: dict(est=b["est"], gt=b["gt"]))(gen_scene(rnd)) for _ in range(rnd.randint(1, 2))])
@@ -194,7 +199,10 @@ def search(item, seed):
 
 def replay(payload):
     i = payload["input"]
-    if payload["function"] == "pooled":
+    if payload["function"] == "heading":
+        import C09 as heading
+        why = heading.check(i)
+    elif payload["function"] == "pooled":
         why = check_pooled(i)
     else:
         why = check_core(i["weights"], i["G"]) if payload["function"] == "Ap(core)" else check_scene(i)
